@@ -976,12 +976,42 @@ HDV = "vrp_core::construction::features::capacity::has_demand_violation"
 HDV_PAIRS = {"delivery": {"get_max_past_capacity_at"}, "pickup": {"get_max_future_capacity_at"}, "change": {"get_max_future_capacity_at", "get_current_capacity_at"}}
 
 
+def _demand_change_law(F, r):
+    ch = [i for i in F.fns if i.startswith("vrp_core::models::common::load::Demand") and i.endswith("::change")]
+    if len(ch) != 1:
+        raise AnchorError(f"Demand::change resolves to {ch}")
+    fn = F.fns[ch[0]]
+    e = mir.expr(fn, {"l": 0, "p": []})
+    terms = {}
+
+    def walk(x, sign):
+        rt = x[0]
+        if rt[0] == "call" and rt[1].startswith("core::ops::arith::") and len(rt[2]) == 2:
+            op = rt[1].split("::")[-1]
+            walk(rt[2][0], sign)
+            walk(rt[2][1], sign if op == "add" else -sign)
+        else:
+            part = [p for p in x[1] if p in (".delivery", ".pickup")]
+            comp = [p for p in x[1] if p in (".0", ".1")]
+            if len(part) == 1 and len(comp) == 1:
+                terms[(part[0], comp[0])] = terms.get((part[0], comp[0]), 0) + sign
+            else:
+                terms[("?", str(x)[:30])] = sign
+    walk(e, 1)
+    want = {(".pickup", ".0"): 1, (".pickup", ".1"): 1, (".delivery", ".0"): -1, (".delivery", ".1"): -1}
+    if terms == want:
+        r.ok("Demand::change", "pickup.0 + pickup.1 - delivery.0 - delivery.1")
+    else:
+        r.fail("Demand::change", f"the load change of a job is {sorted((k[0] + k[1], v) for k, v in terms.items())}: it must add both pickup parts and subtract both delivery parts", F.loc(ch[0]))
+
+
 def c1_capacity_law(F, r):
     """capacity: a violation is reported iff some (cached load summary + demand part) does not fit; static delivery is tested against the max PAST load, static pickup
     against the max FUTURE load, the dynamic change against FUTURE and CURRENT; only the static-delivery test may abort the scan (it gets worse further right)"""
     from .. import ordeval as oe
     if HDV not in F.fns:
         raise AnchorError(HDV)
+    _demand_change_law(F, r)
     fn = F.fns[HDV]
     sites = {}
     for bi, t in mir.calls(fn):
